@@ -180,6 +180,28 @@ Section NamingProofs.
         + eapply IH; eauto. }
     pose proof (Hgen _ _ _ Hi Hli) as H1. pose proof (Hgen _ _ _ Hj Hlj) as H2. cbn in H1, H2. congruence.
   Qed.
+
+  (** A package update, phase by phase: afterwards every phase's slice names decode, in order, to exactly the
+      chunks of that phase (the encoding is lossless across the whole template, whatever slices existed before
+      and whatever the hash function does), and no slice that existed before was modified. *)
+  Definition content_of (st : nstore C) (n : N) : option C := option_map es_content (nlookup n st).
+
+  Theorem chunk_phases_lossless phases : forall st st' ls,
+    Slices.chunk_phases ceqb hash st phases = (st', Some ls) ->
+    map (map (fun x => content_of st' (fst (fst x)))) ls = map (map Some) phases /\
+    (forall m e, nlookup m st = Some e -> nlookup m st' = Some e).
+  Proof.
+    induction phases as [|chunks r IH]; intros st st' ls; cbn [Slices.chunk_phases].
+    - intros H. injection H as <- <-. split; [reflexivity|auto].
+    - destruct (chunk_phase st chunks) as [st1 [l|]] eqn:E1; [|discriminate].
+      destruct (Slices.chunk_phases ceqb hash st1 r) as [st2 [ls'|]] eqn:E2; [|discriminate].
+      intros H. injection H as <- <-. destruct (IH _ _ _ E2) as [Hr Hp2].
+      destruct (chunk_phase_names _ _ _ _ E1) as (_ & Hall & Hp1). split.
+      + cbn [map]. rewrite Hr. f_equal. clear -Hall Hp2.
+        induction Hall as [|c x cs xs Hx _ IHa]; [reflexivity|]. cbn [map]. rewrite IHa. f_equal.
+        destruct x as [[n cc] cr]. cbn [fst]. destruct Hx as [_ Hl]. unfold content_of. now rewrite (Hp2 _ _ Hl).
+      + intros m e Hm. apply Hp2. now apply Hp1.
+  Qed.
 End NamingProofs.
 
 (** The Go loop has no bound: with a hash that ignores the collision count and a foreign slice under that
@@ -525,23 +547,68 @@ Section RephasePass.
 
   Lemma with_w_Rw sw w : with_w (Rw sw) w = Rw (with_w sw w).
   Proof. reflexivity. Qed.
+  Lemma with_phases_Rw sw w phs : with_phases (Rw sw) w phs = Rw (with_phases sw w phs).
+  Proof. reflexivity. Qed.
+  Lemma sw_phases_Rw sw : sw_phases (Rw sw) = sw_phases sw.
+  Proof. reflexivity. Qed.
+  Lemma sw_w_Rw sw : sw_w (Rw sw) = sw_w sw.
+  Proof. reflexivity. Qed.
+  Lemma sw_nss_Rw sw : sw_nss (Rw sw) = sw_nss sw.
+  Proof. reflexivity. Qed.
+  Lemma sw_sets_Rw sw : sw_sets (Rw sw) = map R (sw_sets sw).
+  Proof. reflexivity. Qed.
 
-  (** The reconciler loop on one and the same in-memory copy, over a world with re-phased stored sets. *)
-  Lemma active_body_Rw_same sw evs m :
-    os_revision m <> 0%Z ->
-    active_body force (Rw sw) evs m = let '(sw', e, r) := active_body force sw evs m in (Rw sw', e, r).
+  (** Case analysis on every scrutinee of the goal (the functions below never look at the stored ObjectSets,
+      so both sides of the commutation equations branch on the same terms). *)
+  Ltac branches :=
+    repeat match goal with
+           | |- context [match ?x with _ => _ end] => destruct x
+           end; try reflexivity.
+
+  (** The delegated-phase primitives only read and write the phase objects, the namespaces and the counters. *)
+  Lemma remote_reconcile_Rw sw s ph rem :
+    remote_reconcile (Rw sw) s ph rem =
+    let '(sw1, e, rem1, r) := remote_reconcile sw s ph rem in (Rw sw1, e, rem1, r).
   Proof.
-    intros Hnz. unfold active_body. rewrite !revision_pass_nz by assumption.
-    cbn [sw_w Rw sw_sets]. rewrite lookup_prev_R' by assumption.
-    assert (Hupd : forall sw0 mm, update_status (Rw sw0) mm =
-                     let '(s1, m1, ok) := update_status sw0 mm in (Rw s1, snd (fst (update_status (Rw sw0) mm)), ok)).
-    { intros sw0 mm. destruct (update_status sw0 mm) as [[s1 m1] ok] eqn:E.
-      destruct (update_status_Rw_same F F_stable _ _ _ _ _ E) as (m2 & E2). now rewrite E2. }
-    destruct (Nat.ltb 0 (dup_count [] (map (spec_key m) (all_objects m)))).
-    - rewrite Hupd. now destruct (update_status sw _) as [[s1 m1] ok].
-    - destruct (reconcile_phases force (sw_w sw) (as_owner m) (lookup_prev (sw_sets sw) m) _ []) as [[w2 pevs] pr].
-      change (with_w (Rw sw) w2) with (Rw (with_w sw w2)).
-      destruct pr as [[]| |ctrlof failed]; try reflexivity; rewrite Hupd; now destruct (update_status (with_w sw w2) _) as [[s1 m1] ok].
+    unfold remote_reconcile. rewrite ?sw_phases_Rw, ?sw_w_Rw, ?sw_nss_Rw, ?with_phases_Rw. branches.
+  Qed.
+
+  Lemma delete_phase_Rw sw cur : delete_phase (Rw sw) cur = Rw (delete_phase sw cur).
+  Proof. unfold delete_phase. rewrite ?sw_phases_Rw, ?sw_w_Rw, ?sw_nss_Rw, ?with_phases_Rw. branches. Qed.
+
+  Lemma remote_teardown_Rw sw s ph :
+    remote_teardown (Rw sw) s ph = let '(sw1, e, r) := remote_teardown sw s ph in (Rw sw1, e, r).
+  Proof.
+    unfold remote_teardown. rewrite ?sw_phases_Rw, ?sw_w_Rw, ?sw_nss_Rw, ?with_phases_Rw. branches;
+      now rewrite delete_phase_Rw.
+  Qed.
+
+  (** The mixed phase loops over a world with re-phased stored sets. *)
+  Lemma reconcile_phases_m_Rw s ow prev phs : forall sw acc rem,
+    reconcile_phases_m force (Rw sw) s ow prev phs acc rem =
+    let '(sw1, e, rem1, r) := reconcile_phases_m force sw s ow prev phs acc rem in (Rw sw1, e, rem1, r).
+  Proof.
+    induction phs as [|ph rest IH]; intros sw acc rem; cbn [reconcile_phases_m]; [reflexivity|].
+    destruct (ph_class ph).
+    - rewrite remote_reconcile_Rw. destruct (remote_reconcile sw s ph rem) as [[[sw1 e1] rem1] [|active [|]]]; try reflexivity.
+      rewrite IH. now destruct (reconcile_phases_m force sw1 s ow prev rest (acc ++ active) rem1) as [[[sw2 e2] rem2] r].
+    - change (sw_w (Rw sw)) with (sw_w sw).
+      destruct (reconcile_phase _ _ (sw_w sw) ow prev false (ph_objects ph)) as [[w1 e1] [e|vs|actual failed]]; try reflexivity.
+      destruct failed; [|reflexivity]. rewrite with_w_Rw, IH.
+      now destruct (reconcile_phases_m force (with_w sw w1) s ow prev rest _ rem) as [[[sw2 e2] rem2] r].
+  Qed.
+
+  Lemma teardown_phases_m_Rw s ow rphs : forall sw,
+    teardown_phases_m force (Rw sw) s ow rphs =
+    let '(sw1, e, r) := teardown_phases_m force sw s ow rphs in (Rw sw1, e, r).
+  Proof.
+    induction rphs as [|ph rest IH]; intros sw; cbn [teardown_phases_m]; [reflexivity|].
+    destruct (ph_class ph).
+    - rewrite remote_teardown_Rw. destruct (remote_teardown sw s ph) as [[sw1 e1] [|[|]]]; try reflexivity.
+      rewrite IH. now destruct (teardown_phases_m force sw1 s ow rest) as [[sw2 e2] r].
+    - change (sw_w (Rw sw)) with (sw_w sw).
+      destruct (teardown_phase _ _ (sw_w sw) ow (ph_objects ph)) as [[w1 e1] [|[|]]]; try reflexivity.
+      rewrite with_w_Rw, IH. now destruct (teardown_phases_m force (with_w sw w1) s ow rest) as [[sw2 e2] r].
   Qed.
 
   Lemma update_status_Rw_proj sw0 mm p :
@@ -552,6 +619,31 @@ Section RephasePass.
     destruct (update_status_Rw F F_stable _ _ p _ _ _ E) as (m2 & E2 & _). now rewrite E2.
   Qed.
 
+  Lemma update_status_Rw_proj_same sw0 mm :
+    update_status (Rw sw0) mm =
+    let '(s1, m1, ok) := update_status sw0 mm in (Rw s1, snd (fst (update_status (Rw sw0) mm)), ok).
+  Proof.
+    destruct (update_status sw0 mm) as [[s1 m1] ok] eqn:E.
+    destruct (update_status_Rw_same F F_stable _ _ _ _ _ E) as (m2 & E2). now rewrite E2.
+  Qed.
+
+  (** The reconciler loop on one and the same in-memory copy, over a world with re-phased stored sets. *)
+  Lemma active_body_Rw_same sw evs m :
+    os_revision m <> 0%Z ->
+    active_body force (Rw sw) evs m = let '(sw', e, r) := active_body force sw evs m in (Rw sw', e, r).
+  Proof.
+    intros Hnz. unfold active_body. rewrite !revision_pass_nz by assumption.
+    rewrite sw_sets_Rw, lookup_prev_R' by assumption.
+    destruct (Nat.ltb 0 (dup_count [] (map (spec_key m) (all_objects m)))).
+    - rewrite update_status_Rw_proj_same. now destruct (update_status sw _) as [[s1 m1] ok].
+    - rewrite reconcile_phases_m_Rw.
+      destruct (reconcile_phases_m force sw m (as_owner m) (lookup_prev (sw_sets sw) m) (os_phases m) [] (os_remotes m))
+        as [[[sw2 pevs] rem] pr].
+      change (sw_phases (Rw sw2)) with (sw_phases sw2).
+      destruct pr as [[]| | |ctrlof failed]; try reflexivity;
+        rewrite update_status_Rw_proj_same; now destruct (update_status sw2 _) as [[s1 m1] ok].
+  Qed.
+
   (** The revision reconciler stops the loop (requeue or error): nothing looks at the phases. *)
   Lemma active_body_Rw_stop sw evs m sw1 e1 m1 rr :
     revision_pass sw m = (sw1, e1, m1, rr) -> rr <> RevGo ->
@@ -559,7 +651,9 @@ Section RephasePass.
   Proof.
     intros E Hrr. unfold active_body. rewrite (revision_pass_Rw F F_stable), E.
     destruct rr; [contradiction| |reflexivity].
-    change (set_conds (R m1) (paused_cond (R m1))) with (set_phases (set_conds m1 (paused_cond m1)) (F m1)).
+    change (sw_phases (Rw sw1)) with (sw_phases sw1).
+    change (set_conds (R m1) (paused_cond (sw_phases sw1) (R m1)))
+      with (set_phases (set_conds m1 (paused_cond (sw_phases sw1) m1)) (F m1)).
     rewrite update_status_Rw_proj. now destruct (update_status sw1 _) as [[s1 mm1] ok].
   Qed.
 
@@ -572,9 +666,10 @@ Section RephasePass.
     unfold active_body. rewrite E, (revision_pass_nz sw1 m1 Hnz). cbn [app].
     destruct (Nat.ltb 0 (dup_count [] (map (spec_key m1) (all_objects m1)))).
     - destruct (update_status sw1 _) as [[s1 mm1] ok]. now rewrite <- !app_assoc.
-    - destruct (reconcile_phases force (sw_w sw1) (as_owner m1) (lookup_prev (sw_sets sw1) m1) _ []) as [[w2 pevs] pr].
-      destruct pr as [[]| |ctrlof failed]; try reflexivity;
-        destruct (update_status (with_w sw1 w2) _) as [[s1 mm1] ok]; now rewrite <- !app_assoc.
+    - destruct (reconcile_phases_m force sw1 m1 (as_owner m1) (lookup_prev (sw_sets sw1) m1) (os_phases m1) [] (os_remotes m1))
+        as [[[sw2 pevs] rem] pr].
+      destruct pr as [[]| | |ctrlof failed]; try reflexivity;
+        destruct (update_status sw2 _) as [[s1 mm1] ok]; now rewrite <- !app_assoc.
   Qed.
 
   Lemma patch_finalizer_Rw_same sw m fin :
@@ -585,16 +680,21 @@ Section RephasePass.
   Lemma deletion_pass_Rw_same sw m :
     deletion_pass force (Rw sw) m = let '(sw', e, r) := deletion_pass force sw m in (Rw sw', e, r).
   Proof.
-    unfold deletion_pass. cbn [sw_w Rw].
-    set (td := if os_fin m then if os_orphan m then (sw_w sw, [], TdOk true)
-               else teardown_phases force (sw_w sw) (as_owner m) (rev (filter (fun ph => negb (ph_class ph)) (os_phases m)))
-               else (sw_w sw, [], TdOk true)).
-    destruct td as [[w1 tevs] tdr].
-    change (with_w (Rw sw) w1) with (Rw (with_w sw w1)).
+    unfold deletion_pass.
+    assert (Htd : (if os_fin m then if os_orphan m then (Rw sw, [], TdOk true)
+                   else teardown_phases_m force (Rw sw) m (as_owner m) (rev (os_phases m))
+                   else (Rw sw, [], TdOk true)) =
+                  let '(s1, e, r) := (if os_fin m then if os_orphan m then (sw, [], TdOk true)
+                                      else teardown_phases_m force sw m (as_owner m) (rev (os_phases m))
+                                      else (sw, @nil sev, TdOk true)) in (Rw s1, e, r)).
+    { destruct (os_fin m); [|reflexivity]. destruct (os_orphan m); [reflexivity|]. apply teardown_phases_m_Rw. }
+    rewrite Htd. clear Htd.
+    destruct (if os_fin m then if os_orphan m then (sw, [], TdOk true)
+              else teardown_phases_m force sw m (as_owner m) (rev (os_phases m)) else (sw, [], TdOk true)) as [[sw1 evs1] tdr].
     destruct tdr as [|[|]].
     - reflexivity.
     - destruct (os_fin m).
-      + rewrite patch_finalizer_Rw_same. destruct (patch_finalizer (with_w sw w1) m false) as [sw2 [mem2|]]; cbn [option_map]; [|reflexivity].
+      + rewrite patch_finalizer_Rw_same. destruct (patch_finalizer sw1 m false) as [sw2 [mem2|]]; cbn [option_map]; [|reflexivity].
         destruct (lifecycle_eqb (os_life m) LArchived); cbn [negb]; [|reflexivity].
         match goal with |- context [update_status (Rw sw2) ?mm] =>
           change mm with (set_phases (set_conds (set_ctrlof (set_conds mem2 (set_cond (os_conds mem2) (mk_cond mem2 CArchived STrue RArchived))) [])
@@ -602,11 +702,9 @@ Section RephasePass.
                                      (F mem2)) end.
         rewrite update_status_Rw_proj. now destruct (update_status sw2 _) as [[s1 mm1] ok].
       + destruct (lifecycle_eqb (os_life m) LArchived); cbn [negb]; [|reflexivity].
-        rewrite <- (set_phases_same (set_conds _ _)) at 1.
-        rewrite update_status_Rw_proj. rewrite set_phases_same. now destruct (update_status (with_w sw w1) _) as [[s1 mm1] ok].
+        rewrite update_status_Rw_proj_same. now destruct (update_status sw1 _) as [[s1 mm1] ok].
     - destruct (lifecycle_eqb (os_life m) LArchived); cbn [negb]; [|reflexivity].
-      rewrite <- (set_phases_same (set_conds _ _)) at 1.
-      rewrite update_status_Rw_proj. rewrite set_phases_same. now destruct (update_status (with_w sw w1) _) as [[s1 mm1] ok].
+      rewrite update_status_Rw_proj_same. now destruct (update_status sw1 _) as [[s1 mm1] ok].
   Qed.
 End RephasePass.
 
@@ -799,7 +897,7 @@ End Equiv.
 Definition has_delete (l : list sev) : bool :=
   existsb (fun e => match e with SMember (EDelete _ _ _ _ _ DOk) => true | _ => false end) l.
 Definition no_member (l : list sev) : bool :=
-  forallb (fun e => match e with SMember _ => false | SMeta _ => true end) l.
+  forallb (fun e => match e with SMember _ => false | _ => true end) l.
 Definition finalizer_removed (l : list sev) : bool :=
   existsb (fun e => match e with SMeta (MFinalizer false true) => true | _ => false end) l.
 Definition archived_reported (l : list sev) : bool :=
